@@ -8,7 +8,7 @@ def ev_ok(names):
 
 LEDGER_DRIVERS = [{"name": "ledger", "args": {"quick": [60, 120], "thorough": [3000, 300]}}]
 # episodes that need an exact coincidence (harness/src/drv2.rs)
-EDGE_DRIVERS = [{"name": "edge", "args": {"quick": [240], "thorough": [10000]}}]
+EDGE_DRIVERS = [{"name": "edge", "args": {"quick": [264], "thorough": [11000]}}]
 
 
 LEDGER_MODELS = [
@@ -205,7 +205,7 @@ PROPS = {
     "C19": risk_prop2(["collect_fees", "withdraw_fees", "withdraw_fees_perm", "withdraw_insurance", "settle_emissions", "withdraw_emissions",
                        "withdraw_emissions_perm", "deposit", "withdraw"], ADMIN_DRIVERS + LEDGER_DRIVERS, models=LEDGER_MODELS, minnt=200),
     "C08": {
-        "models": AUTH_MODELS + PDA_MODELS + [txm("Recv2", "setups/tx.json")],
+        "models": AUTH_MODELS + PDA_MODELS + [txm("Recv2", "setups/tx.json"), txm("RecvP", "setups/tx.json")],
         "drivers": STAKED_DRIVERS + RISK_DRIVERS + LIQ_DRIVERS + KAMINO_DRIVERS + RECV_DRIVERS + ADMIN_DRIVERS,
         "nontrivial": auth_nontrivial,
         "rule": "each matrix cell (instruction x variant: unmodified, signer identity, missing signature, slot x foreign object; normal and frozen account; every role-gated instruction x identity after every re-assignment of a group role) executed through marginfi::entry is one evaluation, so is every role assignment and every instruction executed with a substituted price account; all are non-trivial; distinct by (cell, variant, identity, substitution, mode, result)",
